@@ -28,6 +28,7 @@ let dummy_target : (int, int) Hashtbl.t = Hashtbl.create 8       (* external joi
 let pending_nb : (int, (int * bool * z)) Hashtbl.t = Hashtbl.create 8
 let primary_ptr = ref 0
 let api_bad : string list ref = ref []
+let last_ok_req : (int, int) Hashtbl.t = Hashtbl.create 8
 let last_mig_req : (int * int, int * int) Hashtbl.t = Hashtbl.create 8
 let ext_joiner : (int, int) Hashtbl.t = Hashtbl.create 8         (* actor pointer -> dummy id of its current join *)
 let root_ptrs : (int, bool) Hashtbl.t = Hashtbl.create 8         (* root ULTs of the streams: outside the model *)
@@ -130,6 +131,14 @@ let () =
                 apply ln desc (EJoinRet (nat_of a, nat_of u)) [u] [] []
               | None -> raise (Mismatch (Printf.sprintf "line=%d join of an unknown unit index %d" ln idx)))
            end else if op = Char.code 'x' then xjoin := (idx, int_of_string c) :: !xjoin
+           else if op = Char.code 'p' then begin
+             (* final pool + callback count of a unit: the last acknowledged request must have been performed *)
+             let v = int_of_string c in
+             (match Hashtbl.find_opt last_ok_req idx with
+              | Some want when want <> v / 1000 ->
+                api_bad := Printf.sprintf "F6:unit%d-last-acknowledged-migration-target-pool%d-but-unit-is-in-pool%d(callbacks=%d)" idx want (v / 1000) (v mod 1000) :: !api_bad
+              | _ -> ())
+           end
            else if op = Char.code 'j' then begin
              let v = int_of_string c in
              if v / 10000 <> 0 || (v / 1000) mod 10 <> 1 || v mod 1000 <> 0 then
@@ -143,6 +152,7 @@ let () =
              (match Hashtbl.find_opt last_mig_req (aptr, idx), Hashtbl.find_opt idx_uid idx with
               | Some (p, cur_pool), _ ->
                 let rc = int_of_string c in
+                if rc = 0 then Hashtbl.replace last_ok_req idx p;
                 if (p = cur_pool) <> (rc <> 0) then
                   api_bad := Printf.sprintf "migrate_to_pool(unit%d,pool%d)-returned-%d-with-current-pool-%d" idx p rc cur_pool :: !api_bad
               | _ -> ())
